@@ -265,9 +265,62 @@ def run(ctx, res):
             res.ob(good, "fci-kind", sup, f"{nm} supports exactly {kind} feedback (RFC 4585/5104)", detail=repr(r)[:200])
         for s, k, r in I.inline(fm, None, State(), [b]):
             res.ob(isinstance(r, IntV) and r.l == lin(fmt), "fci-kind", fm, f"{nm}::format() == {fmt}", detail=repr(r))
+    n_pad = padding_attribute(F, D, builders, res)
+    res.floor("get_padding outcomes checked", n_pad, 16)
     res.floor("rejecting size outcomes checked", n_err, 40)
     res.floor("accepting size outcomes checked", n_ok, 18)
     res.analysed = per
+
+
+def padding_attribute(F, D, builders, res):
+    """the compound rule 'no member but the last requests padding' reads each member's get_padding(): it must be truthful.
+    Packet builders: get_padding() is Some(p) exactly when the configured padding p is non-zero (C07 ties the P bit and the
+    trailer to the same field); a compound reports its last member's."""
+    n = 0
+    for name, B in builders.items():
+        if B.kind == "fci" or not B.gp or name == "PacketBuilder":
+            continue
+        if name == "CompoundBuilder":
+            n += compound_get_padding(F, B, res)
+            continue
+        I = Interp(F)
+        b = I.symbolic(D.ty_index_of_adt(B.adt), ("b",))
+        pad = b.fields.get("padding") if isinstance(b, StructV) else None
+        if not isinstance(pad, IntV):
+            if B.kind == "sub":
+                continue
+            res.ob(False, "anchor", B.gp, f"{name} has an integer `padding` configuration field")
+            continue
+        for s, k, r in I.inline(B.gp, None, State(), [b]):
+            n += 1
+            if isinstance(r, StructV) and r.variant == "None":
+                good = solver.entails(s.pc, flit(eq(pad.l, 0)))
+            elif isinstance(r, StructV) and r.variant == "Some" and isinstance(r.fields["0"], IntV):
+                good = solver.entails(s.pc, f_and(flit(eq(r.fields["0"].l, pad.l)), flit(ge(pad.l, 1))))
+            else:
+                good = False
+            res.ob(good, "padding-attribute", B.gp, f"{name}::get_padding() is Some(p) exactly for a non-zero configured padding p", detail=repr(r)[:200], pc=s.pc)
+    return n
+
+
+def compound_get_padding(F, B, res):
+    S = Summary(F, B)
+    if S.error:
+        res.unmodelled(B.gp, S.error)
+        return 0
+    N = S.b.fields["packets"].count()
+    n = 0
+    for s, k, r in S.I.inline(B.gp, None, State(), [S.b]):
+        if isinstance(r, StructV) and r.variant == "None":
+            good = solver.entails(s.pc, flit(eq(N, 0))) or any(l[0] == "b" and isinstance(l[1], tuple) and l[1][-1] == "has_padding" and l[2] is False for l in s.pc)
+            res.ob(good, "compound-padding", B.gp, "CompoundBuilder::get_padding() is None only for an empty compound or a last member without padding", pc=s.pc)
+        elif isinstance(r, StructV) and r.variant == "Some":
+            x = r.fields["0"]
+            a = x.l.single_atom() if isinstance(x, IntV) else None
+            good = bool(a) and a[0][0] == "elem" and a[0][3][-1] == "#padding" and solver.entails(s.pc, flit(eq(Lin.from_key(a[0][2]), N - 1)))
+            res.ob(good, "compound-padding", B.gp, "CompoundBuilder::get_padding() is the last member's padding", detail=repr(r)[:200], pc=s.pc)
+        n += 1
+    return n
 
 
 def element_value(S, path, s, generic=False):
